@@ -412,6 +412,10 @@ def staticText (cap : Int) (run : Nat → Res TCR) : Res (List Char) :=
 def intStaticText (T : IntTy) (v : Int) : Res (List Char) :=
   staticText (intCapacity T) (fun len => intToChars T (Buf.fresh len) v 10)
 
+/-- `to_chars_static<Base>(value)` for an integer: the capacity does not depend on the base -/
+def intStaticTextBase (T : IntTy) (base : Nat) (v : Int) : Res (List Char) :=
+  staticText (intCapacity T) (fun len => intToChars T (Buf.fresh len) v base)
+
 def scaledStaticText (T : IntTy) (e : Int) (radix : Nat) (rep : Int) : Res (List Char) :=
   staticText (scaledCapacity T e radix) (fun len => scaledToChars T e radix len rep)
 
